@@ -176,7 +176,9 @@ func c02Setup(c *core.Ctx) { c.Register("c02", c02Eval) }
 // names with capitals (as IANA spells e.g. ...sheet.macroEnabled.12): under the
 // root (prefix "foo"), under text/plain (first non-space byte '{', so JSON-like
 // text lands on it), under zip (PK\x03\x04) and a child of that one (always).
-var c02ExtTree = []extOp{{Attach: 0, Pred: 2, Aliases: 1}, {Attach: 2, Pred: 4}, {Attach: 3, Pred: 3, Aliases: 2}, {Attach: 8, Pred: 1}}
+// The text/plain extension lists "text/html" among its aliases (an XHTML-like
+// registration): it is still not one of the three charset-bearing types.
+var c02ExtTree = []extOp{{Attach: 0, Pred: 2, Aliases: 1}, {Attach: 2, Pred: 4, Aliases: 2, AliasBuiltin: true}, {Attach: 3, Pred: 3, Aliases: 2}, {Attach: 8, Pred: 1}}
 
 var c02Tree *treeModel
 var c02Ext bool
